@@ -101,7 +101,8 @@ def check_via_ctor(model, rep):
                         rep.violation('C19.via-ctor', f'{m.qualname}', f'writes the private field {n.attr} outside '
                                       f'__init__/to()', f'{m.module}:{n.lineno}')
                 if isinstance(n, ast.Return) and n.value is not None and m.name.startswith('__') and m.name.endswith('__') \
-                        and m.name not in ('__init__', '__repr__', '__format__') or \
+                        and m.name not in ('__init__', '__repr__', '__format__', '__eq__', '__ne__', '__lt__', '__le__', '__gt__', '__ge__',
+                                           '__bool__', '__hash__', '__str__', '__len__', '__contains__') or \
                         (isinstance(n, ast.Return) and n.value is not None and m.name == 'to'):
                     sites += 1
                     rep.inspect()
@@ -164,6 +165,8 @@ def check_via_ctor(model, rep):
                             return bool(binds) and all(built_ok(b, depth + 1) for b in binds)
                         if isinstance(v, (ast.BinOp, ast.Compare, ast.Constant, ast.JoinedStr, ast.BoolOp, ast.UnaryOp)):
                             return True          # number / bool / string
+                        if isinstance(v, ast.IfExp):
+                            return built_ok(v.body, depth) and built_ok(v.orelse, depth)
                         return False
                     ok = built_ok(v)
                     cons = f'{m.qualname}@return#{sites}'
